@@ -1,5 +1,5 @@
 //! unit: u07d
-//! properties: C07 C06
+//! properties: C07 C06 C11
 //! note: what the monitor reports as claimable for one HTLC output of a confirmed commitment (channelmonitor.rs get_htlc_balance, the decision after the pending on-chain events were scanned): every HTLC that is not yet resolved on chain is reported, with its own amount; our outbound HTLC as something we can take back at its expiry (or as awaiting confirmations once our timeout spend is in a block); an inbound HTLC whose preimage we know as ours to claim before its expiry (awaiting confirmations only once a spend that used the preimage is in a block); an inbound HTLC without preimage as the counterparty's unless it times out
 //! trusted: R15 (deep slice): get_htlc_balance from `if let Some(conf_thresh) = holder_delayed_output_pending` to the end, verbatim as a function of the values the scan above it produced; the scan of revoked-output claims (`htlc_output_claim_pending`, an iterator chain over pending events) is replaced by a parameter; R11: `panic!("Outbound HTLCs should have a source")` is unreachable!() (obligation: an HTLC we offered has a source); R16: `Some(&HTLCSource::X)` written `Some(HTLCSource::X)`
 //! assume: the relations LDK's debug_assert!s state between the results of the scan (a delayed output of ours only on our own commitment; an HTLC resolved with no spend pending only on our commitment or after the funding spend is final; no timeout event and no preimage spend of an offered HTLC on a revoked commitment; a timeout event only for an HTLC we can time out) hold: they are kept as obligations and discharged from these preconditions
@@ -247,5 +247,54 @@ pub struct Tally { pub claimable_inbound_htlc_value_sat: u64, pub outbound_payme
 //@with
     inbound_claiming_htlc_rounded_msat += rounded_value_msat; if htlc.transaction_output_index.is_none() {
 //@end
+// ---- which transaction closed the channel, for the purpose of reporting balances (get_claimable_balances, head): a funding spend still waiting for its anti-reorg depth counts, with the height at which it will have it and ITS to_remote output; otherwise the spend already final, with the stored output ----
+pub mod closing_tx {
+use vstd::prelude::*;
+#[derive(Clone, Copy)] pub struct Txid2(pub u64);
+pub type CommitmentTxCounterpartyOutputInfo = Option<(u32, u64)>;
+pub enum OnchainEvent { FundingSpendConfirmation { on_local_output_csv: Option<u16>, commitment_tx_to_counterparty_output: CommitmentTxCounterpartyOutputInfo }, Other { id: u64 } }
+pub struct OnchainEventEntry { pub txid: Txid2, pub height: u32, pub event: OnchainEvent }
+pub uninterp spec fn threshold_of(e: OnchainEventEntry) -> u32;
+impl OnchainEventEntry { #[verifier::external_body] pub fn confirmation_threshold(&self) -> (r: u32) ensures r == threshold_of(*self) { unimplemented!() } }
+pub struct Inner { pub funding_spend_confirmed: Option<Txid2>, pub confirmed_commitment_tx_counterparty_output: CommitmentTxCounterpartyOutputInfo, pub onchain_events_awaiting_threshold_conf: Vec<OnchainEventEntry> }
+pub open spec fn is_spend(e: OnchainEventEntry) -> bool { e.event is FundingSpendConfirmation }
+pub open spec fn first_spend(s: Seq<OnchainEventEntry>, k: int) -> bool { 0 <= k < s.len() && is_spend(s[k]) && forall|j: int| 0 <= j < k ==> !is_spend(#[trigger] s[j]) }
+//@extract lightning/src/chain/channelmonitor.rs :: impl ChannelMonitor :: fn get_claimable_balances
+//@slice R15
+    let mut confirmed_txid = us.funding_spend_confirmed; let mut confirmed_counterparty_output = us.confirmed_commitment_tx_counterparty_output; let mut pending_commitment_tx_conf_thresh = None; let funding_spend_pending = us.onchain_events_awaiting_threshold_conf.iter().find_map(|event| { $fm:any }); if let Some((txid, conf_thresh)) = funding_spend_pending { $set:any }
+//@with
+    fn transaction_that_closed_the_channel(us: &Inner) -> (Option<Txid2>, CommitmentTxCounterpartyOutputInfo, Option<u32>) {
+        let mut confirmed_txid = us.funding_spend_confirmed; let mut confirmed_counterparty_output = us.confirmed_commitment_tx_counterparty_output; let mut pending_commitment_tx_conf_thresh = None;
+        // R6: `E.iter().find_map(|event| B)` as an index loop returning the first Some, B carried verbatim (it assigns a captured variable)
+        let mut funding_spend_pending: Option<(Txid2, u32)> = None; let mut __k: usize = 0;
+        while __k < us.onchain_events_awaiting_threshold_conf.len() && funding_spend_pending.is_none()
+            invariant __k <= us.onchain_events_awaiting_threshold_conf@.len(),
+                funding_spend_pending is None ==> confirmed_counterparty_output == us.confirmed_commitment_tx_counterparty_output && forall|j: int| 0 <= j < __k ==> !is_spend(#[trigger] us.onchain_events_awaiting_threshold_conf@[j]),
+                funding_spend_pending is Some ==> __k > 0 && first_spend(us.onchain_events_awaiting_threshold_conf@, __k - 1)
+                    && funding_spend_pending->Some_0 == (us.onchain_events_awaiting_threshold_conf@[__k - 1].txid, threshold_of(us.onchain_events_awaiting_threshold_conf@[__k - 1]))
+                    && confirmed_counterparty_output == us.onchain_events_awaiting_threshold_conf@[__k - 1].event->FundingSpendConfirmation_commitment_tx_to_counterparty_output,
+            decreases us.onchain_events_awaiting_threshold_conf@.len() - __k + (if funding_spend_pending is None { 1int } else { 0int })
+        { let event = &us.onchain_events_awaiting_threshold_conf[__k]; __k = __k + 1; funding_spend_pending = { $fm }; }
+        if let Some((txid, conf_thresh)) = funding_spend_pending { $set }
+        (confirmed_txid, confirmed_counterparty_output, pending_commitment_tx_conf_thresh) }
+//@rw R16 ?
+    if let OnchainEvent::FundingSpendConfirmation { commitment_tx_to_counterparty_output, .. } = event.event {
+//@with
+    if let OnchainEvent::FundingSpendConfirmation { commitment_tx_to_counterparty_output, .. } = &event.event { let commitment_tx_to_counterparty_output = *commitment_tx_to_counterparty_output;
+//@ret r
+//@requires
+    // LDK's debug assertion: a funding spend is either waiting for its depth or final, not both
+    (exists|k: int| first_spend(us.onchain_events_awaiting_threshold_conf@, k)) ==> us.funding_spend_confirmed is None,
+//@ensures P C07,C11 balances-are-reported-against-the-funding-spend-still-waiting-for-its-depth-if-there-is-one-with-its-maturity-height-and-its-own-to-remote-output-and-otherwise-against-the-spend-that-is-final
+    (forall|j: int| 0 <= j < us.onchain_events_awaiting_threshold_conf@.len() ==> !is_spend(#[trigger] us.onchain_events_awaiting_threshold_conf@[j]))
+        ==> r == (us.funding_spend_confirmed, us.confirmed_commitment_tx_counterparty_output, None::<u32>),
+    forall|k: int| first_spend(us.onchain_events_awaiting_threshold_conf@, k) ==> r == (Some(us.onchain_events_awaiting_threshold_conf@[k].txid),
+        us.onchain_events_awaiting_threshold_conf@[k].event->FundingSpendConfirmation_commitment_tx_to_counterparty_output, Some(threshold_of(us.onchain_events_awaiting_threshold_conf@[k]))),
+//@mutant pending_spend_reported_with_the_stored_counterparty_output
+    confirmed_counterparty_output = commitment_tx_to_counterparty_output;
+//@with
+
+//@end
+}
 }
 fn main() {}
